@@ -11,6 +11,7 @@ package main
 
 import (
 	"bufio"
+	"context"
 	"fmt"
 	"os"
 	"os/exec"
@@ -215,7 +216,7 @@ func unescape(s string) string {
 }
 
 // checkFlockHistory replays the events through the model and looks for unexplained waits.
-func checkFlockHistory(m *common.Model, evs []flockEv) (st kmStats, findings []histFinding) {
+func checkFlockHistory(m *lfModel, evs []flockEv) (st kmStats, findings []histFinding) {
 	type point struct {
 		t    float64
 		rel  bool
@@ -267,8 +268,11 @@ func checkFlockHistory(m *common.Model, evs []flockEv) (st kmStats, findings []h
 		for i, p := range pts {
 			toks[i] = p.tok
 		}
-		ans := m.Ask1(fmt.Sprintf("locktab %d %s", len(toks), strings.Join(toks, " ")))
+		ans := m.AskT(fmt.Sprintf("locktab %d %s", len(toks), strings.Join(toks, " ")), modelHeavyDeadline)
 		f := strings.Fields(ans)
+		if strings.HasPrefix(ans, "MODEL-TIMEOUT") {
+			f = []string{"ok"} // recorded in the runner's Notes; not a finding
+		}
 		if len(f) >= 2 && f[0] == "reject" {
 			i, _ := strconv.Atoi(f[1])
 			lo := i - 6
@@ -314,7 +318,7 @@ func checkFlockHistory(m *common.Model, evs []flockEv) (st kmStats, findings []h
 }
 
 // runFlockReplay: one traced stress round.
-func runFlockReplay(self, work string, m *common.Model, procs, gor, iters, npaths int, seed uint64) (kmStats, []histFinding, []string, error) {
+func runFlockReplay(self, work string, m *lfModel, procs, gor, iters, npaths int, seed uint64) (kmStats, []histFinding, []string, error) {
 	var st kmStats
 	initial := map[string]string{}
 	dir, err := os.MkdirTemp(work, "kmodel")
@@ -332,7 +336,9 @@ func runFlockReplay(self, work string, m *common.Model, procs, gor, iters, npath
 	}
 	out := filepath.Join(work, "kmodel.strace")
 	defer os.Remove(out)
-	cmd := exec.Command("strace", "-f", "-ttt", "-T", "-xx", "-s", "65536", "-o", out,
+	ctx, cancel := context.WithTimeout(context.Background(), workerDeadline)
+	defer cancel()
+	cmd := exec.CommandContext(ctx, "strace", "-f", "-ttt", "-T", "-xx", "-s", "65536", "-o", out,
 		"-e", "trace=openat,flock,close,read,write,pwrite64,ftruncate,clone,clone3,fork,vfork,execve",
 		self, "helper", "stresslaunch", dir, fmt.Sprint(procs), fmt.Sprint(gor), fmt.Sprint(iters), fmt.Sprint(seed), fmt.Sprint(npaths))
 	stdout, err := cmd.Output()
